@@ -10,7 +10,7 @@
    session state.  The same is checked on the implementation by the fault sweep (lib/monitors.py mon_c12). *)
 From Coq Require Import List NArith.
 From Minimq Require Import Bytes Varint Utf8 Props Ser De Reader Arena Core Show Machine Parse Run.
-From Minimq Require Import Reconnect ConnectOk.
+From Minimq Require Import CodecProofs Reconnect ConnectOk Connack ConnectAny.
 Import ListNotations.
 Open Scope N_scope.
 
@@ -79,6 +79,47 @@ Theorem C12_connect_hyps_met :
   length (ob_ret (s_ob (w_sess ex_broken))) = 1%nat /\ w_live ex_broken = false.
 Proof. exact connect_hyps_broken. Qed.
 
+(* ... and for EVERY conformant answer of the broker: any successful CONNACK the handshake accepts (either
+   session-present value; any property list without Receive Maximum 0, Maximum QoS > 2 or an over-long assigned
+   identifier - C08_connack_accepted_iff), arriving on a behaving transport: connect() writes the CONNECT, the packet
+   reader assembles the CONNACK whatever its length, it is decoded and accepted, `resumed` = session present *)
+Theorem C12_connect_succeeds_any : forall w off bs sp ps block szb rl t,
+  encode_all ps = Some block -> forallb prop_wf ps = true -> forallb prop_canon ps = true ->
+  forallb connack_prop_ok ps = true ->
+  varint_write (lenN block) = Some szb -> varint_write (lenN (connack_body sp szb block)) = Some rl ->
+  let pkt := 32 :: rl ++ connack_body sp szb block in
+  lenN pkt <= rcap (s_reader (w_sess w)) -> lenN pkt <= 29000 ->
+  w_script w = [] -> w_broker w = 0 -> w_inq w = [(t, pkt)] -> t <= w_now w ->
+  let s2 := connect_scratch (w_sess w) in
+  enc_connect (ob_cap (s_ob s2) - ob_used (s_ob s2)) (connect_request s2) = SOk off bs -> lenN bs <= BIG ->
+  exists w', op_connect FUEL w = (w', ODone (if sp then 1 else 0)).
+Proof. exact connect_succeeds_any. Qed.
+
+Theorem C12_connect_action_succeeds_any : forall w sp ps block szb rl,
+  encode_all ps = Some block -> forallb prop_wf ps = true -> forallb prop_canon ps = true ->
+  forallb connack_prop_ok ps = true ->
+  varint_write (lenN block) = Some szb -> varint_write (lenN (connack_body sp szb block)) = Some rl ->
+  let pkt := 32 :: rl ++ connack_body sp szb block in
+  lenN pkt <= rcap (s_reader (w_sess w)) -> lenN pkt <= 29000 ->
+  w_script w = [] -> w_broker w = 0 ->
+  let s2 := connect_scratch (w_sess w) in
+  let free := ob_cap (s_ob s2) - ob_used (s_ob s2) in
+  let cs := connect_chunks (connect_request s2) in
+  chunks_ok cs = true -> chunks_len cs <= VARINT_MAX -> 5 + chunks_len cs <= free ->
+  let w' := run_action (AConnect [(0, pkt)]) w in
+  w_conn w' = true /\ w_live w' = true /\ w_event w' = (if sp then 1 else 0).
+Proof. exact connect_action_succeeds_any. Qed.
+
+(* computed instance: a resumed session with a half-sent retained publish; CONNACK with Receive Maximum 3, an assigned
+   client identifier, Server Keep Alive 30 and a user property *)
+Theorem C12_connect_any_example :
+  forallb connack_prop_ok ex_ck_props = true /\ forallb prop_wf ex_ck_props = true /\ forallb prop_canon ex_ck_props = true /\
+  lenN ex_ck_packet = 23 /\
+  snd (op_connect FUEL ex_any_world) = ODone 1 /\
+  rt_maxquota (s_rt (w_sess (fst (op_connect FUEL ex_any_world)))) = 3 /\
+  s_client_id (w_sess (fst (op_connect FUEL ex_any_world))) = [105; 100].
+Proof. exact connect_any_example. Qed.
+
 Print Assumptions C12_preamble_clean.
 Print Assumptions C12_connect_succeeds.
 Print Assumptions C12_connect_action_succeeds.
@@ -87,3 +128,6 @@ Print Assumptions C12_connect_encode_failure_is_local.
 Print Assumptions C12_connect_encodes_iff_room.
 Print Assumptions C12_plain_connack_accepted.
 Print Assumptions C12_refuted_full_arena.
+Print Assumptions C12_connect_succeeds_any.
+Print Assumptions C12_connect_any_example.
+Print Assumptions C12_connect_action_succeeds_any.
